@@ -3,24 +3,28 @@ package main
 import (
 	"fmt"
 	"go/types"
+	"os"
+	"runtime"
+	"strings"
 	"sync"
 
 	"golang.org/x/tools/go/ssa"
 )
 
 type G struct {
-	id          int
-	name        string
-	resume      chan struct{}
-	done        bool
-	started     bool
-	blockedOn   func() bool
-	blockDesc   string
-	daemon      bool
-	atomicDepth int
-	vc          []int // vector clock
-	fn          func()
-	waitChans   []*ChanV // channels this goroutine is blocked on (recv / select)
+	id             int
+	name           string
+	resume         chan struct{}
+	done           bool
+	started        bool
+	blockedOn      func() bool
+	blockDesc      string
+	daemon         bool
+	atomicDepth    int
+	atomicExplicit int   // vAtomicBegin/End, package initialisers, harness conditions
+	vc             []int // vector clock
+	fn             func()
+	waitChans      []*ChanV // channels this goroutine is blocked on (recv / select)
 }
 
 type Timer struct {
@@ -33,6 +37,7 @@ type Timer struct {
 	dormant    func() bool
 	wasDormant bool
 	ch         *ChanV // channel fed by this timer, if any
+	vc         []int  // creator's clock: the firing happens after the creation
 }
 
 type ChanV struct {
@@ -83,6 +88,7 @@ type sched struct {
 type mutexState struct {
 	locked  bool
 	readers int
+	rvc     []int // released by readers (RUnlock)
 	vc      []int
 	owner   *G
 }
@@ -188,7 +194,21 @@ func (m *Machine) tick(g *G) {
 	g.vc[g.id]++
 }
 
+var vcDebug = os.Getenv("GOSYM_VCDEBUG") != ""
+
 func joinVC(dst *[]int, src []int) {
+	if vcDebug && len(src) > 3 && (len(*dst) <= 3 || src[3] > (*dst)[3]) && src[3] > 1 {
+		buf := make([]byte, 4096)
+		n := runtime.Stack(buf, false)
+		lines := strings.Split(string(buf[:n]), "\n")
+		out := ""
+		for i, l := range lines {
+			if strings.Contains(l, "main.") && i < 24 {
+				out += " | " + strings.TrimSpace(l)
+			}
+		}
+		fmt.Printf("VCJOIN dst=%v src=%v%s\n", *dst, src, out)
+	}
 	for len(*dst) < len(src) {
 		*dst = append(*dst, 0)
 	}
@@ -300,7 +320,7 @@ func (m *Machine) schedPoint(kind string) {
 		return
 	}
 	g := m.cur
-	if g.atomicDepth > 0 || m.preemptions >= m.maxPreempt {
+	if g.atomicDepth > 0 || g.atomicExplicit > 0 || m.preemptions >= m.maxPreempt {
 		return
 	}
 	var others []*G
@@ -357,7 +377,7 @@ func (m *Machine) goStmt(fr *frame, instr *ssa.Go, fn Value, args []Value) {
 	g.fn = func() {
 		m.call(nil, instr.Pos(), fn, args)
 	}
-	if fr.g.atomicDepth > 0 && len(m.initStack) > 0 {
+	if fr.g.atomicExplicit > 0 && len(m.initStack) > 0 {
 		g.daemon = true
 	}
 	m.schedPoint("go")
@@ -370,6 +390,9 @@ func (m *Machine) addTimer(d *Term, desc string, fire func()) *Timer {
 	// deadline = now + max(d, 0)
 	dd := Ite(BvCmp("bvslt", d, MkBV(64, 0)), MkBV(64, 0), d)
 	t := &Timer{id: m.timerSeq, deadline: BvBin("bvadd", m.now, dd), fire: fire, active: true, desc: desc}
+	if m.cur != nil {
+		t.vc = append([]int{}, m.cur.vc...)
+	}
 	m.timers = append(m.timers, t)
 	return t
 }
@@ -472,6 +495,9 @@ func (m *Machine) advanceTime() bool {
 	m.assume(earliest(t))
 	m.now = t.deadline
 	m.firings++
+	if t.ch != nil {
+		joinVC(&t.ch.vc, t.vc)
+	}
 	if t.period != nil {
 		t.deadline = BvBin("bvadd", m.now, t.period)
 	} else {
@@ -529,7 +555,7 @@ func (c *ChanV) canRecv() bool {
 }
 
 func (m *Machine) chanTake(c *ChanV) (Value, bool) {
-	joinVC(&m.cur.vc, c.vc)
+	m.acq(c.vc, "sched.go#1")
 	if len(c.buf) > 0 {
 		v := c.buf[0]
 		c.buf = c.buf[1:]
@@ -698,4 +724,11 @@ func (m *Machine) reportPanic(g *G, p targetPanic) {
 		detail += " at" + m.lastPanicSite
 	}
 	m.violations = append(m.violations, &Violation{Kind: "panic", Label: "panic", Detail: fmt.Sprintf("g%d(%s): %s", g.id, g.name, detail), Choices: append([]int{}, m.forced[:m.pos]...)})
+}
+
+func (m *Machine) acq(src []int, why string) {
+	if vcDebug && m.cur != nil && m.cur.id != 3 && len(src) > 3 && src[3] > 0 && (len(m.cur.vc) <= 3 || src[3] > m.cur.vc[3]) {
+		fmt.Printf("ACQ g%d(%s) gets g3 clock %d via %s (fn %s)\n", m.cur.id, m.cur.name, src[3], why, m.curFrame.fn.Name())
+	}
+	joinVC(&m.cur.vc, src)
 }
